@@ -545,9 +545,15 @@ with review (f : nat) (cv : vars) (from : nat) (e : eng) (i : nat) {struct f} : 
     let '(isr, e1) :=
       match kind e i with
       | KWorkflow =>
-          if is before SRunning then (true, set_state 14 e i SCompleted) else (false, e)
+          (* done when every task started directly beneath it is done (lifecycle-hook acts aside) *)
+          if is before SRunning then
+            if forallb (fun j => is_completed (st e j) || t_evproc (tk e j)) (children e i)
+            then (true, set_state 14 e i SCompleted) else (false, e)
+          else (false, e)
       | KBranch =>
-          if is before SRunning then (true, set_state 15 e i SCompleted)
+          if is before SRunning then
+            if forallb (fun j => is_completed (st e j) || t_evproc (tk e j)) (children e i)
+            then (true, set_state 15 e i SCompleted) else (false, e)
           else if is before SSkipped then (true, e) else (false, e)
       | KStep =>
           if is before SRunning then
